@@ -6,7 +6,7 @@ var realLib = []string{"github.com/tdewolff/parse/v2 (working tree of /repo, unm
 
 func init() {
 	cfgs["C13"] = &propCfg{
-		quickRuns: 300000, thoroughRuns: 24000000,
+		quickRuns: 200000, thoroughRuns: 24000000,
 		quickBudget: 100 * time.Second, thoroughBudget: 14 * time.Minute,
 		requiredProbes: []string{
 			"probe_refill_unfinished_token", "probe_refill_inplace", "probe_refill_reuse_pool_block", "probe_refill_fresh_alloc",
